@@ -396,6 +396,22 @@ def _vector(draw, allow_long=False):
         for i in negs:
             vals[i] = -vals[i]
         return list(draw(st.permutations(vals)))
+    if allow_long and draw(st.integers(0, 7)) == 0:
+        # many levels WITH ties: weights grow like 3^k (two columns per level) or irregularly, i.e. far beyond 2^53 while
+        # still inside 64 bits and not powers of two - anything computed in floating point on the way is visibly rounded
+        uniform = draw(st.booleans())
+        levels = draw(st.integers(33, 39)) if uniform else draw(st.integers(28, 38))
+        vals = []
+        for lv in range(1, levels + 1):
+            mult = 2 if uniform else draw(st.sampled_from([2, 2, 2, 1, 3]))
+            vals += [lv * draw(st.sampled_from([1, -1])) for _ in range(mult)]
+        return list(draw(st.permutations(vals)))
+    if allow_long and draw(st.integers(0, 11)) == 0:
+        # huge, close-together magnitudes (time stamps, packed counters): distinct levels that one float64 cannot tell apart
+        base = draw(st.sampled_from([2 ** 53, 2 ** 60, 1_760_000_000_000_000_000, 2 ** 62]))
+        n = draw(st.integers(2, 8))
+        offs = draw(st.lists(st.integers(0, 40), min_size=n, max_size=n))
+        return [(base + o) * draw(st.sampled_from([1, 1, -1])) if draw(st.integers(0, 4)) else 0 for o in offs]
     n = draw(st.integers(1, 12))
     return draw(_matrix(1, n))[0]
 
